@@ -181,6 +181,101 @@ def connect_case(tree, st, dt, any_inputs, second_pair=False, cache=False):
     return h
 
 
+def independence(tree, st, dt):
+    """a connect() that is rejected as a whole must leave the two simulators independent: under the schedule that always
+    delivers A's replies first, A performs all its steps before any reply of B is delivered - and vice versa.  (A wait left
+    behind by a rejected pair shows up as B's reply being needed while A is unfinished.)"""
+    paths = paths_of(tree)
+    st, dt = T.SHORT[st], T.SHORT[dt]
+
+    def h(eng):
+        until = 2
+        sa = T.out_attr(st, 'p') or T.out_attr(st, 'e')
+        da_pool = [a for a in ('it', 'im') if T.in_attr(dt, 't' if a == 'it' else 'm') == a]
+        da = da_pool[eng.choose(len(da_pool), 'dst_attr')]
+        weak = bool(eng.choose(2, 'weak'))
+        shifted = bool(eng.choose(2, 'shifted'))
+        has_init = bool(eng.choose(2, 'initial'))
+        bad_attr = bool(eng.choose(2, 'bad_attr'))     # use a non-existing source attribute instead
+        cg = common(paths['A'], paths['B'])
+        trig = (dt == T.EV) or (dt == T.HY and da == 'it')
+        rejected_expected = bad_attr or (weak and len(cg) < 2) or ((weak or shifted) and not trig and not has_init)
+        if not rejected_expected:
+            return ('accepted-case', {'nontrivial': False})
+        fp = [str(tree), st, dt, da, weak, shifted, has_init, bad_attr]
+        desc = f'tree={tree} {st}->{dt} pair={"zz" if bad_attr else sa}->{da} weak={weak} time_shifted={shifted} initial={has_init}'
+        results = {}
+        for prefer, other in (('A', 'B'), ('B', 'A')):
+            loop = sysrun.OracleLoop(eng)
+            loop.prefer = prefer
+            begun = {'A': 0, 'B': 0}
+            seen = {'needed_other': None}
+
+            def behaviour(sim, what, k, time, arg, max_advance):
+                if what == 'step':
+                    return time + 1
+                return {eid: {a: f'{sim.sid}#{k}.{a}' for a in attrs} for eid, attrs in arg.items()}
+
+            def hook(kind, sid, f, payload):
+                if kind == 'request' and f == 'step' and loop.active:
+                    begun[sid] += 1
+
+            def on_deliver(sid, prefer=prefer, begun=begun, seen=seen):
+                if sid != prefer and seen['needed_other'] is None:
+                    seen['needed_other'] = begun[prefer]
+            loop.on_deliver = on_deliver
+            sysrun.CTX.clear()
+            sysrun.CTX.update(eng=eng, loop=loop, K=8, until=until, ref=None, log=[], sync=set(), future_outputs=False,
+                              behaviour=behaviour, hook=hook)
+            with sysrun.patched():
+                w = mosaik.World({'S': {'python': 'vk.sysrun:SymSim'}}, skip_greetings=True, asyncio_loop=loop, cache=True)
+                try:
+                    ents = {}
+
+                    def rec(t):
+                        for it in t:
+                            if isinstance(it, (list, tuple)):
+                                with w.group():
+                                    rec(it)
+                            else:
+                                ents[it] = w.start('S', sim_id=it, typ=st if it == 'A' else dt).M()
+                    rec(tree)
+                    kw = {}
+                    if shifted:
+                        kw['time_shifted'] = True
+                    if weak:
+                        kw['weak'] = True
+                    if has_init:
+                        kw['initial_data'] = {sa: 'INIT'}
+                    try:
+                        w.connect(ents['A'], ents['B'], ('zz' if bad_attr else sa, da), **kw)
+                        return ('not-rejected', {'nontrivial': False})     # judged by connect_case
+                    except ScenarioError:
+                        pass
+                    loop.active = True
+                    try:
+                        w.run(until=until, print_progress=False)
+                        out = 'done'
+                    except sysrun.Deadlock:
+                        out = 'deadlock'
+                    except Exception as e:  # noqa
+                        out = f'exc:{type(e).__name__}'
+                    finally:
+                        loop.active = False
+                finally:
+                    if not loop.is_closed():
+                        loop.close()
+            ptype = st if prefer == 'A' else dt
+            expected_steps = 0 if ptype == T.EV else until      # deterministic behaviour: one step per time unit; event-based: never triggered
+            needed = seen['needed_other']
+            ok = out == 'done' and (needed is None or needed >= expected_steps)
+            eng.check(ok, 'C11.wait', f'after the rejected connect() {prefer} could not perform its {expected_steps} steps on its own: a reply of {other} was '
+                      f'needed after {needed} step(s) of {prefer} (run: {out}): {desc}', {'fp': fp + [prefer]})
+            results[prefer] = (out, needed)
+        return ('rejected', {'nontrivial': True, 'results': str(results)})
+    return h
+
+
 def jobs(tier):
     out = []
     q = tier == 'quick'
@@ -197,4 +292,9 @@ def jobs(tier):
                                         'harness': 'vk.kernels.c11:connect_case',
                                         'params': {'tree': tree, 'st': st, 'dt': dt, 'any_inputs': anyi, 'second_pair': second, 'cache': cache},
                                         'budget_s': 300})
+    for ti, tree in enumerate(PLACEMENTS):
+        for st in types:
+            for dt in types:
+                out.append({'id': f'indep|t{ti}|{st}>{dt}', 'harness': 'vk.kernels.c11:independence', 'params': {'tree': tree, 'st': st, 'dt': dt},
+                            'budget_s': 200})
     return out
